@@ -105,6 +105,17 @@ PROOF_UNITS = {
     'C18': [('contracts.pure', 'CompactTimeslot', (), {})],
 }
 
+def _fw(names):
+    return [('contracts.forward', 'Forwarder', (cls, f), {}) for f in names for cls in ('DynGraph', 'DynDiGraph') if not (f == 'neighbors' and cls == 'DynDiGraph')]
+
+
+_FW_C02 = _fw(['nodes', 'interactions', 'degree', 'neighbors', 'number_of_nodes', 'number_of_interactions', 'all_neighbors'])
+PROOF_UNITS['C02'] = PROOF_UNITS['C02'] + _FW_C02
+PROOF_UNITS['C08'] = PROOF_UNITS['C08'] + _FW_C02
+PROOF_UNITS['C06'] = PROOF_UNITS['C06'] + _fw(['time_slice'])
+PROOF_UNITS['C05'] = PROOF_UNITS['C05'] + _fw(['stream_interactions'])
+PROOF_UNITS['C04'] = PROOF_UNITS['C04'] + _fw(['temporal_snapshots_ids', 'interactions_per_snapshots'])
+PROOF_UNITS['C17'] = PROOF_UNITS['C17'] + _fw(['inter_event_time_distribution'])
 _C02_ACCUM = [u for u in PROOF_UNITS['C02'] if u[0] == 'contracts.neighbours' and u[3].get('mode') == 'accum']
 PROOF_UNITS['C08'] = PROOF_UNITS['C08'] + _C02_ACCUM
 
